@@ -141,3 +141,15 @@ impl Network {
         rule_min_duration(&self.config, &self.locations, &self.nodes@[a], &self.nodes@[b])
     }
 }
+
+// A-display: the Display impls (outside verus!, no-ops here; derive_more / hand written in the
+// repository) have no precondition
+impl vstd::std_specs::fmt::DisplaySpecImpl for NodeIdx {
+    open spec fn fmt_req(&self, f: &std::fmt::Formatter<'_>) -> bool { true }
+}
+impl vstd::std_specs::fmt::DisplaySpecImpl for VehicleIdx {
+    open spec fn fmt_req(&self, f: &std::fmt::Formatter<'_>) -> bool { true }
+}
+impl vstd::std_specs::fmt::DisplaySpecImpl for Node {
+    open spec fn fmt_req(&self, f: &std::fmt::Formatter<'_>) -> bool { true }
+}
